@@ -28,7 +28,7 @@ ASSUMPTIONS = [
     'chord tolerance 1e-10 + 2e-14*R/min(dz) relative (cancellation in r_k^2-r_t^2); depth and optical depth rtol 1e-9',
     'RJUP=71492 km, RSUN=695700 km, k_B=1.380649e-23 typed in',
 ]
-REQUIRED = {'method:new': 0.3, 'method:legacy': 0.3, 'regime:mixed': 0.15, 'regime:saturated-everywhere': 0.02,
+REQUIRED = {'live-update:T': 0.03, 'live-update:planet_mass': 0.03, 'live-update:abundance': 0.03, 'method:new': 0.3, 'method:legacy': 0.3, 'regime:mixed': 0.15, 'regime:saturated-everywhere': 0.02,
             'regime:transparent': 0.05, 'has-extras': 0.3}
 
 RSUN = 695700000.0
@@ -43,7 +43,9 @@ def _case(draw):
         w = draw(S.world(mags=['zero'], extras=()))
     else:
         w = draw(S.world())
-    return {'world': w, 'new_path': new_path, 'scale': scale}
+    updates = draw(st.lists(st.tuples(st.sampled_from(['abundance', 'temperature', 'planet_mass', 'planet_radius']),
+                                      st.floats(0.6, 1.6).filter(lambda x: abs(x - 1) > 0.02)), min_size=0, max_size=3))
+    return {'world': w, 'new_path': new_path, 'scale': scale, 'updates': updates}
 
 
 def strategy(tier):
@@ -95,118 +97,155 @@ def check(case):
             out.fail('repeatable', 'second model() call differs (max rel %.2e)' % maxrel(again[1], depth))
     except CutError:
         return out
-    nl = w['nlayers']
+    def judge(m, depth, trans, Rp, sfx):
+        nl = w['nlayers']
+        Rs = w['star_R'] * RSUN
+        z = np.asarray(m.altitudeProfile, dtype=float)
+        dz = np.asarray(m.deltaz, dtype=float)
+        zb = np.asarray(m.altitude_boundaries, dtype=float)
+        names = [c.name for c in m.contribution_list]
+        if len(names) > 1:
+            out.cls('has-extras')
+        out.cls('ncontrib:%d' % len(names))
+
+        out.applies('shape')
+        if depth.shape != (len(W.wn),) or trans.shape != (nl, len(W.wn)) or not np.array_equal(wn, W.wn):
+            out.fail(('shape') + sfx, 'depth %s trans %s' % (depth.shape, trans.shape))
+            return None
+        if not (np.all(np.isfinite(z)) and np.all(np.isfinite(dz)) and np.all(dz > 0)):
+            out.cls('degenerate-altitude')
+            return None
+
+        # --- geometry -------------------------------------------------------------
+        path = [np.asarray(p, dtype=float) for p in m.path_length]
+        out.applies('geometry')
+        gtol = 1e-10 + 2e-14 * (Rp + zb[-1]) / float(np.min(dz))
+        if len(path) != nl or any(len(path[l]) != nl - l for l in range(nl)):
+            out.fail(('geometry@%s,counts' % method) + sfx, 'segment counts %s' % [len(p) for p in path])
+            return None
+        pref = ref.path_lengths_new(Rp, z, dz, zb) if case['new_path'] else ref.path_lengths_legacy(Rp, z, dz)
+        for l in range(nl):
+            if not close(path[l], pref[l], rtol=gtol, atol=gtol * float(np.max(pref[l]))):
+                out.fail(('geometry@%s,segments' % method) + sfx,
+                         'layer %d got %s want %s' % (l, path[l][:3], np.array(pref[l][:3])))
+                break
+        if any(np.any(p <= 0) for p in path):
+            out.fail(('geometry@%s,positive' % method) + sfx, 'non-positive chord segment')
+        # convention-free: segments of a ray add up to the full chord to the top shell
+        for l in range(nl):
+            if case['new_path']:
+                rt, rtop = Rp + z[l] + dz[l] / 2.0, Rp + zb[-1]
+            else:
+                rt, rtop = Rp + dz[0] / 2.0 + z[l], Rp + dz[0] / 2.0 + z[-1] + dz[-1] / 2.0
+            full = 2.0 * math.sqrt(max(rtop * rtop - rt * rt, 0.0))
+            if not close(float(np.sum(path[l])), full, rtol=gtol * 10):
+                out.fail(('geometry@%s,chord-sum' % method) + sfx, 'layer %d sum %r full chord %r' % (l, float(np.sum(path[l])), full))
+                break
+
+        # --- density -----------------------------------------------------------------
+        T = np.asarray(m.temperatureProfile, dtype=float)
+        P = np.asarray(m.pressureProfile, dtype=float)
+        dens = np.asarray(m.densityProfile, dtype=float)
+        out.applies('density')
+        if not close(dens, P / (ref.K_BOLTZ * T), rtol=1e-12):
+            out.fail(('density') + sfx, 'n != P/kT (max rel %.2e)' % maxrel(dens, P / (ref.K_BOLTZ * T)))
+
+        # --- opacities ------------------------------------------------------------------
+        sigmas, powers = [], []
+        for c in m.contribution_list:
+            sx = np.asarray(c.sigma_xsec, dtype=float)
+            if c.name == 'Absorption':
+                sref = absorption_sigma_ref(W, m)
+                out.applies('absorption-sigma')
+                if sx.shape != sref.shape or not close(sx, sref, rtol=1e-9, atol=1e-13 * float(np.max(sref)) + 1e-300):
+                    out.fail(('absorption-sigma') + sfx, 'weighted cross-section differs from table x mixing ratio (max rel %.2e)'
+                             % (maxrel(sx, sref) if sx.shape == sref.shape else -1))
+                sigmas.append(('sigma', sref))
+                powers.append(1)
+            elif c.name == 'CIA':
+                sigmas.append(('sigma', sx))
+                powers.append(2)
+            elif c.name == 'SimpleClouds':
+                sigmas.append(('layer', sx))
+                powers.append(0)
+            else:
+                sigmas.append(('sigma', sx))
+                powers.append(1)
+
+        # --- the integral -----------------------------------------------------------------
+        dref = P / (ref.K_BOLTZ * T)
+        with np.errstate(all='ignore'):
+            tau_ref, borderline = ref.slant_tau(path, sigmas, dref, powers)
+            trans_ref = np.exp(-tau_ref)
+        mid = np.sum(np.any((trans_ref > 0.01) & (trans_ref < 0.99), axis=1))
+        if np.all(trans_ref > 0.99):
+            out.cls('regime:transparent')
+        elif np.all(trans_ref < 0.01):
+            out.cls('regime:saturated-everywhere')
+        else:
+            out.cls('regime:mixed')
+        out.nontrivial = bool(mid >= 2)
+        if borderline:
+            out.cls('cutoff-borderline')
+        else:
+            out.applies('transmittance')
+            if not close(trans, trans_ref, rtol=1e-9, atol=1e-9):
+                l = int(np.argmax(np.max(np.abs(trans - trans_ref), axis=1)))
+                out.fail(('transmittance@%s' % method) + sfx, 'layer %d got %s want %s' % (l, trans[l][:3], trans_ref[l][:3]))
+            out.applies('depth')
+            dref_ = ref.transit_depth(Rp, Rs, z, dz, trans_ref)
+            if not close(depth, dref_, rtol=1e-9):
+                out.fail(('depth@%s' % method) + sfx, 'got %s want %s (max rel %.2e)' % (depth[:3], dref_[:3], maxrel(depth, dref_)))
+        # --- consequences -------------------------------------------------------------------
+        bare = (Rp / Rs) ** 2
+        opaque = (Rp * Rp + 2.0 * float(np.sum((Rp + z) * dz))) / (Rs * Rs)
+        out.applies('bounds')
+        if np.any(depth < bare * (1 - 1e-12)):
+            out.fail(('bounds@below-bare-planet') + sfx, 'min depth %r bare %r' % (float(depth.min()), bare))
+        if np.any(depth > opaque * (1 + 1e-12)):
+            out.fail(('bounds@above-opaque') + sfx, 'max depth %r opaque %r' % (float(depth.max()), opaque))
+        if all(g['table'] is None or g['table']['mag'] == 'zero' for g in w['gases']) and names == ['Absorption']:
+            out.cls('nothing-absorbs')
+            out.applies('bare-planet')
+            if not close(depth, bare * np.ones_like(depth), rtol=1e-14):
+                out.fail(('bare-planet') + sfx, 'depth %s bare %r' % (depth[:3], bare))
+        return z, dz
+
     Rp = w['radius'] * synth.RJUP
     Rs = w['star_R'] * RSUN
-    z = np.asarray(m.altitudeProfile, dtype=float)
-    dz = np.asarray(m.deltaz, dtype=float)
-    zb = np.asarray(m.altitude_boundaries, dtype=float)
-    names = [c.name for c in m.contribution_list]
-    if len(names) > 1:
-        out.cls('has-extras')
-    out.cls('ncontrib:%d' % len(names))
-
-    out.applies('shape')
-    if depth.shape != (len(W.wn),) or trans.shape != (nl, len(W.wn)) or not np.array_equal(wn, W.wn):
-        out.fail('shape', 'depth %s trans %s' % (depth.shape, trans.shape))
+    st_ = judge(m, depth, trans, Rp, '')
+    if st_ is None:
         return out
-    if not (np.all(np.isfinite(z)) and np.all(np.isfinite(dz)) and np.all(dz > 0)):
-        out.cls('degenerate-altitude')
-        return out
-
-    # --- geometry -------------------------------------------------------------
-    path = [np.asarray(p, dtype=float) for p in m.path_length]
-    out.applies('geometry')
-    gtol = 1e-10 + 2e-14 * (Rp + zb[-1]) / float(np.min(dz))
-    if len(path) != nl or any(len(path[l]) != nl - l for l in range(nl)):
-        out.fail('geometry@%s,counts' % method, 'segment counts %s' % [len(p) for p in path])
-        return out
-    pref = ref.path_lengths_new(Rp, z, dz, zb) if case['new_path'] else ref.path_lengths_legacy(Rp, z, dz)
-    for l in range(nl):
-        if not close(path[l], pref[l], rtol=gtol, atol=gtol * float(np.max(pref[l]))):
-            out.fail('geometry@%s,segments' % method,
-                     'layer %d got %s want %s' % (l, path[l][:3], np.array(pref[l][:3])))
+    z, dz = st_
+    nontrivial = out.nontrivial
+    Rp_live = Rp
+    # --- live updates: a retrieval changes parameters of the SAME built model between evaluations; every
+    # evaluation must again be the integral for the atmosphere as it now is (no geometry / opacity / density kept)
+    for kind, fac in case.get('updates', []):
+        cands = {'temperature': ['T', 'T_surface', 'T_top'], 'abundance': list(m.chemistry.activeGases)}.get(kind, [kind])
+        name = next((c_ for c_ in cands if c_ in m.fittingParameters), None)
+        if name is None:
+            continue
+        old = m.fittingParameters[name][2]()
+        if not isinstance(old, (float, int, np.floating)) or not math.isfinite(old) or old <= 0:
+            continue
+        if name not in ('T', 'planet_mass', 'planet_radius', 'T_surface', 'T_top') and fac > 1.0:
+            fac = 1.0 / fac                     # abundances only go down: the mixture stays valid
+        out.cls('live-update:' + ('abundance' if name not in ('T', 'planet_mass', 'planet_radius', 'T_surface', 'T_top') else name))
+        out.applies('live-update')
+        try:
+            m[name] = old * fac
+            with np.errstate(all='ignore'):
+                r2 = cut(out, 'run-model', m.model)
+        except CutError:
+            return out
+        if name == 'planet_radius':
+            Rp_live = Rp_live * fac
+        d2 = np.array(r2[1], dtype=float, copy=True)
+        t2 = np.array(r2[2], dtype=float, copy=True)
+        if judge(m, d2, t2, Rp_live, ',live-update') is None:
             break
-    if any(np.any(p <= 0) for p in path):
-        out.fail('geometry@%s,positive' % method, 'non-positive chord segment')
-    # convention-free: segments of a ray add up to the full chord to the top shell
-    for l in range(nl):
-        if case['new_path']:
-            rt, rtop = Rp + z[l] + dz[l] / 2.0, Rp + zb[-1]
-        else:
-            rt, rtop = Rp + dz[0] / 2.0 + z[l], Rp + dz[0] / 2.0 + z[-1] + dz[-1] / 2.0
-        full = 2.0 * math.sqrt(max(rtop * rtop - rt * rt, 0.0))
-        if not close(float(np.sum(path[l])), full, rtol=gtol * 10):
-            out.fail('geometry@%s,chord-sum' % method, 'layer %d sum %r full chord %r' % (l, float(np.sum(path[l])), full))
-            break
-
-    # --- density -----------------------------------------------------------------
-    T = np.asarray(m.temperatureProfile, dtype=float)
-    P = np.asarray(m.pressureProfile, dtype=float)
-    dens = np.asarray(m.densityProfile, dtype=float)
-    out.applies('density')
-    if not close(dens, P / (ref.K_BOLTZ * T), rtol=1e-12):
-        out.fail('density', 'n != P/kT (max rel %.2e)' % maxrel(dens, P / (ref.K_BOLTZ * T)))
-
-    # --- opacities ------------------------------------------------------------------
-    sigmas, powers = [], []
-    for c in m.contribution_list:
-        sx = np.asarray(c.sigma_xsec, dtype=float)
-        if c.name == 'Absorption':
-            sref = absorption_sigma_ref(W, m)
-            out.applies('absorption-sigma')
-            if sx.shape != sref.shape or not close(sx, sref, rtol=1e-9, atol=1e-13 * float(np.max(sref)) + 1e-300):
-                out.fail('absorption-sigma', 'weighted cross-section differs from table x mixing ratio (max rel %.2e)'
-                         % (maxrel(sx, sref) if sx.shape == sref.shape else -1))
-            sigmas.append(('sigma', sref))
-            powers.append(1)
-        elif c.name == 'CIA':
-            sigmas.append(('sigma', sx))
-            powers.append(2)
-        elif c.name == 'SimpleClouds':
-            sigmas.append(('layer', sx))
-            powers.append(0)
-        else:
-            sigmas.append(('sigma', sx))
-            powers.append(1)
-
-    # --- the integral -----------------------------------------------------------------
-    dref = P / (ref.K_BOLTZ * T)
-    with np.errstate(all='ignore'):
-        tau_ref, borderline = ref.slant_tau(path, sigmas, dref, powers)
-        trans_ref = np.exp(-tau_ref)
-    mid = np.sum(np.any((trans_ref > 0.01) & (trans_ref < 0.99), axis=1))
-    if np.all(trans_ref > 0.99):
-        out.cls('regime:transparent')
-    elif np.all(trans_ref < 0.01):
-        out.cls('regime:saturated-everywhere')
-    else:
-        out.cls('regime:mixed')
-    out.nontrivial = bool(mid >= 2)
-    if borderline:
-        out.cls('cutoff-borderline')
-    else:
-        out.applies('transmittance')
-        if not close(trans, trans_ref, rtol=1e-9, atol=1e-9):
-            l = int(np.argmax(np.max(np.abs(trans - trans_ref), axis=1)))
-            out.fail('transmittance@%s' % method, 'layer %d got %s want %s' % (l, trans[l][:3], trans_ref[l][:3]))
-        out.applies('depth')
-        dref_ = ref.transit_depth(Rp, Rs, z, dz, trans_ref)
-        if not close(depth, dref_, rtol=1e-9):
-            out.fail('depth@%s' % method, 'got %s want %s (max rel %.2e)' % (depth[:3], dref_[:3], maxrel(depth, dref_)))
-    # --- consequences -------------------------------------------------------------------
-    bare = (Rp / Rs) ** 2
-    opaque = (Rp * Rp + 2.0 * float(np.sum((Rp + z) * dz))) / (Rs * Rs)
-    out.applies('bounds')
-    if np.any(depth < bare * (1 - 1e-12)):
-        out.fail('bounds@below-bare-planet', 'min depth %r bare %r' % (float(depth.min()), bare))
-    if np.any(depth > opaque * (1 + 1e-12)):
-        out.fail('bounds@above-opaque', 'max depth %r opaque %r' % (float(depth.max()), opaque))
-    if all(g['table'] is None or g['table']['mag'] == 'zero' for g in w['gases']) and names == ['Absorption']:
-        out.cls('nothing-absorbs')
-        out.applies('bare-planet')
-        if not close(depth, bare * np.ones_like(depth), rtol=1e-14):
-            out.fail('bare-planet', 'depth %s bare %r' % (depth[:3], bare))
+    out.nontrivial = nontrivial
     # scaling every cross-section up never lowers the depth (beyond the cut-off slack)
     if case['scale'] is not None and any(g['table'] is not None and g['table']['mag'] != 'zero' for g in w['gases']):
         out.cls('scaled')
